@@ -68,6 +68,7 @@ func (evt *catchEvent) run(ctx context.Context, sender tracing.ISenderHandle) {
 		case msg := <-evt.mch:
 			switch m := msg.(type) {
 			case processEventMessage:
+				verifAt("catch.event", evt.activated.Load())
 				if evt.activated.Load() {
 					evt.tracer.Send(EventObservedTrace{Node: evt.element, Event: m.event})
 					if satisfied, _ := evt.satisfier.Satisfy(m.event); satisfied {
@@ -94,6 +95,7 @@ func (evt *catchEvent) run(ctx context.Context, sender tracing.ISenderHandle) {
 }
 
 func (evt *catchEvent) ConsumeEvent(ev event.IEvent) (result event.ConsumptionResult, err error) {
+	verifAt("catch.consume")
 	evt.mch <- processEventMessage{event: ev}
 	result = event.Consumed
 	return
